@@ -183,7 +183,7 @@ def run(ctx: Ctx) -> int:
                        "must not for a mere re-ordering of derived quantities, assignment-defined parameters, computed "
                        "coefficients or variables without reactions",
                        "trajectory comparison over t <= 0.01 with tolerance 1e-5 (Jacobian on/off) / 1e-4 (RK45 reference)"]
-    n = 16 if ctx.quick else 80
+    n = 16 if ctx.quick else 250
     parts = [
         dict(maxv=3, maxd=3, maxr=3, maxia=0, maxiv=1, maxc=4, fns=cg.TRANSLATABLE, fwd=True, num=n, jac=True),
         dict(maxv=2, maxd=2, maxr=2, maxia=1, maxiv=0, maxc=4, fns=cg.TRANSLATABLE + cg.OPTIONAL, fwd=True, num=n, jac=True),
